@@ -71,6 +71,21 @@ public:
 
     ~VariablesStack();
 
+#if defined(APACHE_XALAN_C_VERIF)
+    // verification hook H2: every operation on the stack is reported to an observer (none by default):
+    // the operation, the name involved (or 0), three operation-specific numbers and the size of the
+    // stack after the operation.
+    typedef void (*VerifObserver)(
+            const char*         op,
+            const XalanQName*   name,
+            unsigned long       a,
+            unsigned long       b,
+            unsigned long       c,
+            unsigned long       size);
+
+    static VerifObserver    s_verifObserver;
+#endif
+
     /**
      * Reset the stack.
      */
